@@ -84,7 +84,7 @@ def rand_values(rng, nb, big=False):
     return v
 
 
-def gen_add(rng, k, slot, types, invalid_p=0.12, nvs=False, allow_group=True):
+def gen_add(rng, k, slot, types, invalid_p=0.12, nvs=False):
     """create/values/commit lines.  Mostly valid."""
     lines = []
     name = rng.choice(NAMES)
@@ -126,11 +126,6 @@ def gen_add(rng, k, slot, types, invalid_p=0.12, nvs=False, allow_group=True):
     if what == "twice":
         lines.append(lines[-1])
     commitflags = rng.choice([4, 8, 1 << 20, 7]) if what == "commitflags" else rng.choice([0, 0, 0, 0, 1, 3, 2])
-    if not allow_group and what != "commitflags":
-        # hwloc_topology_dup leaves topology->grouping* uninitialised (finding
-        # crash:asan:hwloc__groups_by_distances, corpus/c13/dup-group-inaccurate.case):
-        # random cases do not group on a duplicate, what happens there is not defined
-        commitflags = 0
     lines.append("commit %d %d" % (slot, commitflags))
     return lines
 
@@ -167,15 +162,14 @@ def gen_case(rng, k, idx, nops=None):
             lines.append("nvs %d:%d" % (rng.choice([k.CORE, k.CORE, k.PU]), rng.randrange(8)))
     n = nops if nops is not None else rng.randrange(4, 22)
     slot = 0
-    dupped = False
     for _ in range(n):
         r = rng.random()
         if r < 0.30:
             if nvs and rng.random() < 0.6:
                 # a bandwidth matrix over cores, some of which are switch ports
-                lines += gen_add(rng, k, slot % 8, [k.CORE], invalid_p=0.0, nvs=True, allow_group=not dupped)
+                lines += gen_add(rng, k, slot % 8, [k.CORE], invalid_p=0.0, nvs=True)
             else:
-                lines += gen_add(rng, k, slot % 8, types, allow_group=not dupped)
+                lines += gen_add(rng, k, slot % 8, types)
             slot += 1
         elif r < 0.55:
             lines.append(gen_get(rng, k))
@@ -207,10 +201,8 @@ def gen_case(rng, k, idx, nops=None):
             lines.append("restrict 0x%x %d" % (mask, fl))
         elif r < 0.96:
             lines.append("dup")
-            dupped = True
         elif r < 0.985:
             lines.append("xml")
-            dupped = False     # load() initialises the grouping settings again
         else:
             lines.append("refresh")
     lines.append("get all 0 0 0 16")
